@@ -8,7 +8,7 @@ META = {
     "driver_id": "Edit",
     "coq_targets": ["Props/C10.vo", "Extract/Extract_Edit.vo"],
     "technique": "Coq theorems over the executable model of enable_features / disable_features and the annotators' bulk compute (Model/Toggle.v) + step-by-step differential correspondence with the implementation on histories mixing feature switches with edits, undo and redo + direct oracle on the implementation",
-    "level_text": "Proved in Coq about the executable model (Props/C10.v, 22 theorems, all closed under the global context; regionprops values symbolic: VRp mask = the value computed from this mask): C10_unknown / C10_known (a key outside the annotators' all_features anywhere in the list makes enable_features and disable_features raise KeyError with the state returned untouched; with available keys only both return normally); C10_protected_keys / C10_protected (the protected set of UpdateNodeAttrs is all manageable keys plus time, independent of the activity flags; an update mentioning such a key raises ValueError and changes nothing, at basic and at user-action level); C10_registry_enable / C10_registry_disable / C10_edit_keeps_features / C10_registry_step2 / C10_registry_run2 (W_reg: every manageable key is listed in tracks.features iff its flag is on - node keys in the node list, iou in the edge list; enable registers and activates exactly the requested keys, disable removes exactly them, every other registry entry and flag is untouched; no edit, undo, redo or query changes the flags or the registry; hence W_reg holds along any history of switches and edits); C10_frozen_basic / C10_frozen_user / C10_frozen_paint / C10_frozen_step / C10_frozen_run (for a disabled regionprops key: every basic action - also when it raises -, every inverse, every user action, a whole paint stroke including its rollback, undo and redo leave the stored value of every node unchanged and keep the node set outside the nodes the call itself adds / deletes; lifted to arbitrary edit histories); C10_frozen_iou (with iou off the edge annotator's update is the identity and no basic action changes the attributes of an edge other than the one it adds / removes); C10_enable_fresh_rp / C10_enable_rp_fresh (on a state whose array and node set correspond - W_seg - enable_features(keys, recompute=True) leaves every node with VRp of its current mask in its own frame for every requested regionprops key, and the already enabled ones stay fresh: the node half of W_fresh holds afterwards whatever the history); C10_enable_fresh_iou / C10_enable_iou_fresh (same for the edge IoU of every edge whose source frame has a successor frame - all edges of a forward-in-time graph); C10_enable_ids_trk / C10_enable_ids_lin (enabling track_id / lineage_id with the components the networkx oracle returned gives every node of the i-th component id i, lookups = the components, max id = number of components, assuming only that the components are pairwise disjoint). Examples by vm_compute: disable area, paint, enable [area, unknown] -> KeyError and identical state, enable area -> fresh value. Not proved as theorems, resting on the step-by-step differential correspondence with the implementation and the direct oracle (check_toggle): that the Gallina model is the Python code; enable_features with recompute=False (values are whatever was stored); the contract of the networkx component oracle (components cover the node set and are the tracklets / lineages); that W_seg holds at the moment of enabling along arbitrary histories (C07); frozen-ness of the edge IoU above basic-action level. Known finding F-10b (re-enabling an enabled id feature renumbers ids while the undo history keeps the old numbering) is outside these theorems and is reported by the harness. C10_enable_is_generated / C10_disable_is_generated / C10_protected_check_is_generated / C10_generated_along_runs: enable_features, disable_features, the registry / annotator activation layer and the protected-key check of the model equal, for all arguments, the code translated on every run from the current tracks.py, _annotator_registry.py, _graph_annotator.py and update_node_attrs.py (Gen/Toggle_gen.v; fail-closed translator; the bulk compute bodies stay model functions). C10_ids_recomputed_then_undo_refuted: the known finding F-10b as a machine-checked refutation on the faithful model (W_trk holds after re-enabling track_id and fails after the following undo). C10_constructor_is_generated: the constructor pieces of the model (Model/EditCtor.v: the scan of supplied ids = TrackAnnotator._get_max_id_and_map, the bookkeeping part of TrackAnnotator.__init__, first_has = Tracks._check_existing_feature, and the activate-or-compute loop of Tracks._setup_core_computed_features) equal the code translated on every run from _track_annotator.py and tracks.py (Gen/Ctor_gen.v, harness/translate_ctor.py, Proofs/CtorTie.v; the first loop that collects the keys from the annotators is not translated). C10_prepared_registry_activation: with a prepared registry exactly the registered keys an annotator can manage are switched on and nothing else changes (construct_dict_spec). Feature switching inside a session: C10_switch_step (one enable_features-with-recomputation / disable_features call of non-id features keeps the complete invariant WF and the side facts, touches neither history stack nor the array; a refused call returns the state itself), C10_sessions_with_switching_partial (every state along switches ++ an editing session with undo / redo ++ any mix of switches and edits without undo / redo is well formed) and C10_sessions_with_switching_conditional (any interleaving, from the one open hypothesis transport_along: the recorded actions stay consistent transitions between the switched timeline states); undo / redo after a switch is therefore covered by correspondence + oracles only (every run mixes switches into the C08 / C09 / C10 sessions). Proofs/EditSessionsToggle.v.",
+    "level_text": "Proved in Coq about the executable model (Props/C10.v, 22 theorems, all closed under the global context; regionprops values symbolic: VRp mask = the value computed from this mask): C10_unknown / C10_known (a key outside the annotators' all_features anywhere in the list makes enable_features and disable_features raise KeyError with the state returned untouched; with available keys only both return normally); C10_protected_keys / C10_protected (the protected set of UpdateNodeAttrs is all manageable keys plus time, independent of the activity flags; an update mentioning such a key raises ValueError and changes nothing, at basic and at user-action level); C10_registry_enable / C10_registry_disable / C10_edit_keeps_features / C10_registry_step2 / C10_registry_run2 (W_reg: every manageable key is listed in tracks.features iff its flag is on - node keys in the node list, iou in the edge list; enable registers and activates exactly the requested keys, disable removes exactly them, every other registry entry and flag is untouched; no edit, undo, redo or query changes the flags or the registry; hence W_reg holds along any history of switches and edits); C10_frozen_basic / C10_frozen_user / C10_frozen_paint / C10_frozen_step / C10_frozen_run (for a disabled regionprops key: every basic action - also when it raises -, every inverse, every user action, a whole paint stroke including its rollback, undo and redo leave the stored value of every node unchanged and keep the node set outside the nodes the call itself adds / deletes; lifted to arbitrary edit histories); C10_frozen_iou (with iou off the edge annotator's update is the identity and no basic action changes the attributes of an edge other than the one it adds / removes); C10_enable_fresh_rp / C10_enable_rp_fresh (on a state whose array and node set correspond - W_seg - enable_features(keys, recompute=True) leaves every node with VRp of its current mask in its own frame for every requested regionprops key, and the already enabled ones stay fresh: the node half of W_fresh holds afterwards whatever the history); C10_enable_fresh_iou / C10_enable_iou_fresh (same for the edge IoU of every edge whose source frame has a successor frame - all edges of a forward-in-time graph); C10_enable_ids_trk / C10_enable_ids_lin (enabling track_id / lineage_id with the components the networkx oracle returned gives every node of the i-th component id i, lookups = the components, max id = number of components, assuming only that the components are pairwise disjoint). Examples by vm_compute: disable area, paint, enable [area, unknown] -> KeyError and identical state, enable area -> fresh value. Not proved as theorems, resting on the step-by-step differential correspondence with the implementation and the direct oracle (check_toggle): that the Gallina model is the Python code; enable_features with recompute=False (values are whatever was stored); the contract of the networkx component oracle (components cover the node set and are the tracklets / lineages); that W_seg holds at the moment of enabling along arbitrary histories (C07); frozen-ness of the edge IoU above basic-action level. Known finding F-10b (re-enabling an enabled id feature renumbers ids while the undo history keeps the old numbering) is outside these theorems and is reported by the harness. C10_enable_is_generated / C10_disable_is_generated / C10_protected_check_is_generated / C10_generated_along_runs: enable_features, disable_features, the registry / annotator activation layer and the protected-key check of the model equal, for all arguments, the code translated on every run from the current tracks.py, _annotator_registry.py, _graph_annotator.py and update_node_attrs.py (Gen/Toggle_gen.v; fail-closed translator; the bulk compute bodies stay model functions). C10_ids_recomputed_then_undo_refuted: the known finding F-10b as a machine-checked refutation on the faithful model (W_trk holds after re-enabling track_id and fails after the following undo). C10_constructor_is_generated: the constructor pieces of the model (Model/EditCtor.v: the scan of supplied ids = TrackAnnotator._get_max_id_and_map, the bookkeeping part of TrackAnnotator.__init__, first_has = Tracks._check_existing_feature, and the activate-or-compute loop of Tracks._setup_core_computed_features) equal the code translated on every run from _track_annotator.py and tracks.py (Gen/Ctor_gen.v, harness/translate_ctor.py, Proofs/CtorTie.v; the first loop that collects the keys from the annotators is not translated). C10_prepared_registry_activation: with a prepared registry exactly the registered keys an annotator can manage are switched on and nothing else changes (construct_dict_spec). Feature switching inside a session: C10_switch_step (one enable_features-with-recomputation / disable_features call of non-id features keeps the complete invariant WF and the side facts, touches neither history stack nor the array; a refused call returns the state itself), C10_sessions_with_switching_partial (every state along switches ++ an editing session with undo / redo ++ any mix of switches and edits without undo / redo is well formed) and C10_sessions_with_switching_conditional (any interleaving, from the one open hypothesis transport_along: the recorded actions stay consistent transitions between the switched timeline states); undo / redo after a switch is therefore covered by correspondence + oracles only (every run mixes switches into the C08 / C09 / C10 sessions). Proofs/EditSessionsToggle.v. The open hypothesis is narrowed in Proofs/EditSessionsToggle2.v / EditSessionsToggle3.v: C10_switch_keeps_observable_equality (a switch maps observably equal well-formed states to observably equal states), C10_sessions_with_switching_modulo_a (the fully mixed theorem from part (a) of the transport alone: the recorded inverses simulate across two feature tables - NOT proved with a label array), C10_sessions_with_switching_noseg (without a label array the fully mixed theorem is unconditional), C10_noseg_cfg_is_invariant and C10_sessions_with_switching_modulo_a_start (the side condition 'no annotator features without an array' is an invariant of every mixed run - the array keeps its None-ness and shape, no call changes the static part of the feature table - so it is asked of the start state only).",
     "level_note": "Trusted: Coq kernel, extraction (ExtrOcamlBasic only), OCaml driver drv_Edit.ml, Python harness and oracles. Modelled, not verified: networkx (weakly_connected_components answers are inputs of the model), skimage regionprops (symbolic values), numpy. Domain limits: track_id / lineage_id are never disabled during an editing session (SolutionTracks requires them); perimeter / circularity only in 2D with isotropic scale (skimage refuses otherwise). Tied to the source in a second way: feature switching is re-translated on every run (harness/translate_toggle.py, fail closed; object representation Model/PyRt4.v) and proved equal to the model (Proofs/ToggleTie.v, ToggleTieInv.v).",
     "design_ref": "DESIGN.md section 9 (C10)",
     "assumptions": ["track_id and lineage_id stay enabled (they may be re-enabled = recomputed)", "regionprops keys restricted to the combinations skimage supports"],
